@@ -37,6 +37,15 @@ pub mod shim {
         HOOK.read().unwrap().clone()
     }
 
+    /// A named scheduling point that is not an atomic memory operation (lock acquisition, map
+    /// replacement, ...): reported to the hook like an atomic operation of kind `name`.
+    pub fn sched_point(name: &'static str, arg: u64) {
+        if let Some(h) = hook() {
+            h.pre();
+            h.post(name, 0, arg, 0);
+        }
+    }
+
     /// See the module documentation.
     #[derive(Debug, Default)]
     pub struct AtomicU64(StdAtomicU64);
